@@ -107,7 +107,8 @@ class C05(Check):
         if scn.get("only"):
             return [scn["only"]]
         extra = []
-        if scn.get("fresh"):
+        from sim.core import subprocess_ok
+        if scn.get("fresh") and subprocess_ok():
             # a few cuttings in which the continuation runs in a brand-new interpreter ('d')
             frng = random.Random(scn["cut_seed"] + 1)
             extra.append("d" * (n - 1))          # every later batch is run by its own brand-new interpreter
